@@ -793,6 +793,20 @@ func (x *Exec) callByContract(fi *FuncInfo, fc *FuncContract, call *ast.CallExpr
 	for i, c := range fc.Requires {
 		x.assert(env, tag+"/pre:"+clauseName(c, i), "", pre.EvalBool(c.Expr))
 	}
+	// recursion measure: callee's measure (in its pre-state) lexicographically below the caller's entry measure
+	if len(fc.Measure) > 0 && len(x.cx.measure0) > 0 && x.quiet == 0 {
+		var cm []Term
+		for _, m := range fc.Measure {
+			cm = append(cm, pre.Eval(m))
+		}
+		less := False
+		eqPrefix := True
+		for i := 0; i < len(cm) && i < len(x.cx.measure0); i++ {
+			less = Or(less, And(eqPrefix, Cmp("<", cm[i], x.cx.measure0[i]), Cmp(">=", x.cx.measure0[i], IntLit(0))))
+			eqPrefix = And(eqPrefix, Eq(cm[i], x.cx.measure0[i]))
+		}
+		x.assert(env, tag+"/decreases", "", less)
+	}
 	// post state
 	post := &Scope{x: x, pkg: fi.Pkg.Name, locals: map[string]Term{}, oldLocals: pre.locals}
 	for k, v := range pre.locals {
